@@ -401,9 +401,17 @@ pub fn transcript(prog: &Prog, ops: &[Op]) -> (u64, RunInfo) {
 /// C20 (in-process half): the same history on two fresh models gives identical transcripts.
 pub fn run_c20(prog: &Prog, ops: &[Op]) -> Result<RunInfo, Fail> {
     let (h1, info) = transcript(prog, ops);
-    let (h2, _) = transcript(prog, ops);
-    if h1 != h2 {
-        return Err(("transcripts-differ".into(), format!("two runs of the same history in one process differ: {h1:016x} vs {h2:016x}")));
+    // nondeterminism from per-instance random state shows with some probability per run: a few
+    // repetitions (this also makes the replay of such a finding statistical; its identity is the
+    // class and this message, which names no run-dependent detail)
+    for _ in 0..6 {
+        let (h2, _) = transcript(prog, ops);
+        if h1 != h2 {
+            return Err((
+                "transcripts-differ".into(),
+                "repeated runs of the same history in one process give different transcripts (ids, return values or iteration order)".into(),
+            ));
+        }
     }
     Ok(info)
 }
